@@ -22,6 +22,11 @@ CHECKS = {
             "All 120 matrix cells with random content per run, plus reopen cases with every permutation of the file list; each outcome (view, created/removed/changed files, refused calls, discard_patch) is compared with a contract table written from the property and h5py.File semantics.",
             "contract table is the harness author's reading of the statement; stale sidecars after 'w' only counted",
             "4 C03"),
+    "C04": ("fault_enumeration",
+            "fault injection on real record files (byte flips at enumerated payload offsets, truncation, chain surgery, forks, user-block and manifest edits) with an open-must-raise oracle and must-open controls",
+            "For each generated record every structural fault of the property's list is applied, and payload bytes are flipped at sampled (quick) or ALL (thorough) offsets of every container; a faulty set that opens is a violation. Controls make sure the oracle is not 'everything fails'.",
+            "records are sampled; each flip variant is written to a fresh inode because HDF5 shares per-file state by inode within a process",
+            "4 C04"),
     "C05": ("exploration",
             "runtime monitor around merge_files: frame condition on the still-open source (meta, files, view, disk), merged view vs source view (IH5 and plain h5py), identity fields, follow-up patch differential, refusal cases",
             "Random source records with up to 6 containers of both classes are merged while open; the merged container is compared with the overlay view, read with plain h5py, checked for identity, and a follow-up patch of the source is opened on both chains.",
